@@ -64,6 +64,7 @@ StageOf(t)    == P.stageOf[t]
 Upstream(s)   == P.req[s]
 TopLevel      == {s \in Stages : P.parent[s] = ""}
 Children(s)   == {c \in Stages : P.parent[c] = s}
+Kids(s, ph)   == {c \in Children(s) : P.owner[c] = ph}                \* synthetic children the builder creates
 InOrder(S)    == SelectSeq(P.stages, LAMBDA x : x \in S)       \* a set of stages in store order
 Downstream(s) == {d \in Stages : s \in P.req[d]}
 Initial       == {s \in TopLevel : P.req[s] = {}}
@@ -167,18 +168,31 @@ Readiness(s, bypass) ==
 (* models/stage/stage.py: failure_status, determine_status (top-level stage without children) *)
 FailureStatus(s) == IF P.cof[s] THEN "FAILED_CONTINUE" ELSE IF P.failp[s] THEN "TERMINAL" ELSE "STOPPED"
 DetermineStatus(s) ==
-  LET C == {tk[t].status : t \in TaskSet(s)} IN
-  IF C = {} THEN (IF st[s].status = "RUNNING" THEN "SUCCEEDED" ELSE "NOT_STARTED")
+  LET B == {st[c].status : c \in Kids(s, "BEFORE") \cap DOMAIN st}
+      A == {st[c].status : c \in Kids(s, "AFTER") \cap DOMAIN st}
+      C == B \cup {tk[t].status : t \in TaskSet(s)}
+      Inc == {"NOT_STARTED", "RUNNING"}
+  IN
+  IF C = {} THEN (IF st[s].status = "RUNNING"
+                 THEN (IF A \cap Inc # {} THEN "RUNNING" ELSE IF "TERMINAL" \in A THEN "TERMINAL" ELSE "SUCCEEDED")
+                 ELSE "NOT_STARTED")
   ELSE IF "TERMINAL" \in C THEN FailureStatus(s)
   ELSE IF "STOPPED" \in C THEN "STOPPED"
   ELSE IF "CANCELED" \in C THEN "CANCELED"
   ELSE IF "PAUSED" \in C THEN "PAUSED"
   ELSE IF "BUFFERED" \in C THEN "BUFFERED"
   ELSE IF "SUSPENDED" \in C THEN "SUSPENDED"
-  ELSE IF C \cap {"NOT_STARTED", "RUNNING"} # {} THEN "RUNNING"
+  ELSE IF C \cap Inc # {} THEN "RUNNING"
   ELSE IF ~(C \subseteq {"SUCCEEDED", "SKIPPED", "FAILED_CONTINUE"}) THEN "RUNNING"
+  ELSE IF "TERMINAL" \in A THEN "TERMINAL"
+  ELSE IF "STOPPED" \in A THEN "STOPPED"
+  ELSE IF "CANCELED" \in A THEN "CANCELED"
+  ELSE IF A \cap Inc # {} THEN "RUNNING"
   ELSE IF "FAILED_CONTINUE" \in C THEN "FAILED_CONTINUE"
   ELSE "SUCCEEDED"
+CoreDone(s) ==   \* all before-children and tasks finished in a continuing status (and there is at least one)
+  LET C == {st[c].status : c \in Kids(s, "BEFORE") \cap DOMAIN st} \cup {tk[t].status : t \in TaskSet(s)}
+  IN C # {} /\ C \subseteq {"SUCCEEDED", "SKIPPED", "FAILED_CONTINUE"}
 
 (* handlers/complete_workflow.py: _determine_final_status;  "RETRY" = re-queue, "" n/a *)
 AllUpComplete(s) == \A u \in Upstream(s) : st[u].status \in {"SUCCEEDED", "FAILED_CONTINUE", "SKIPPED"}
@@ -200,7 +214,7 @@ Cur      == CHOOSE m \in q : m.id = wk.mid
 EnvOK    == Idle \/ EnvBetween
 Visible(m) == ~m.lock /\ ~m.delayed /\ m.att < MaxAttempts
 SetWk(pc)  == wk' = [wk EXCEPT !.pc = pc]
-IdleWk     == [wk EXCEPT !.pc = "idle", !.mid = NoMsg, !.out = "", !.sib = <<>>]
+IdleWk     == [wk EXCEPT !.pc = "idle", !.mid = NoMsg, !.out = "", !.sib = <<>>, !.kids = <<>>]
 Label(n)   == lbl' = [name |-> n, mid |-> wk.mid, c |-> TRUE]    \* a step that is a database commit
 LabelN(n)  == lbl' = [name |-> n, mid |-> wk.mid, c |-> FALSE]   \* a step without commit
 
@@ -216,7 +230,7 @@ Init ==
   /\ tk = [t \in {x \in AllTasks : StageOf(x) \in TopLevel} |-> TaskRow0]
   /\ LET r == PushSeq({}, {}, 1, <<StartWorkflowM>>) IN q = r.q /\ pushed = r.pushed /\ nextId = r.nid
   /\ dlq = {} /\ done = {} /\ claims = <<>>
-  /\ wk = [pc |-> "idle", mid |-> NoMsg, out |-> "", sib |-> <<>>, seen |-> {}, auth |-> TRUE]   \* hydrated from an empty store
+  /\ wk = [pc |-> "idle", mid |-> NoMsg, out |-> "", sib |-> <<>>, kids |-> <<>>, seen |-> {}, auth |-> TRUE]   \* hydrated from an empty store
   /\ ledger = [t \in AllTasks |-> <<>>]
   /\ gh = [starts |-> [s \in Stages |-> 0],      \* NOT_STARTED -> RUNNING claims per stage
            rearms |-> [s \in Stages |-> 0],      \* times a jump re-armed the stage
@@ -386,7 +400,8 @@ StartStage ==
                  /\ wk' = [wk EXCEPT !.pc = "ss_claimed",
                                      !.sib = IF P.choice[s] = "" THEN <<>>
                                              ELSE InOrder({o \in DOMAIN st \ {s} : P.choice[o] = P.choice[s]
-                                                                                  /\ st[o].status = "NOT_STARTED"})]
+                                                                                  /\ st[o].status = "NOT_STARTED"}),
+                                     !.kids = InOrder(Kids(s, "BEFORE"))]
                  /\ Label("StartStageClaim")
                  /\ UNCHANGED <<wf, dlq, ledger, cnt>>
 
@@ -396,12 +411,38 @@ StartStageCancelSibling ==   \* deferred choice won: one CancelStage per still N
   /\ wk' = [wk EXCEPT !.sib = Tail(@)] /\ Label("StartStageCancelSibling")
   /\ UNCHANGED <<wf, st, tk, dlq, claims, ledger, gh, cnt>>
 
+AddRows(stf, c)  == [x \in DOMAIN stf \cup {c} |-> IF x = c THEN StageRow0 ELSE stf[x]]
+AddTasks(tkf, c) == [x \in DOMAIN tkf \cup TaskSet(c) |-> IF x \in TaskSet(c) THEN TaskRow0 ELSE tkf[x]]
+
+StartStageAddChild ==   \* _plan_stage: the builder's before-stages are inserted one commit each (add_stage)
+  /\ wk.pc = "ss_claimed" /\ wk.sib = <<>> /\ wk.kids # <<>>
+  /\ LET c == Head(wk.kids) IN st' = AddRows(st, c) /\ tk' = AddTasks(tk, c)
+  /\ NoQueueChange
+  /\ wk' = [wk EXCEPT !.kids = Tail(@)] /\ Label("StartStageAddChild")
+  /\ UNCHANGED <<wf, dlq, claims, ledger, gh, cnt>>
+
+(* handlers/start_stage/orchestration.py:_collect_start_messages *)
+StartMsgs(s) ==
+  LET bef == Kids(s, "BEFORE") \cap DOMAIN st'   \* evaluated in the plan step: children exist by then
+      aft == Kids(s, "AFTER") \cap DOMAIN st'
+  IN IF bef # {} THEN Map(StartStageM, InOrder(bef))
+     ELSE IF TasksOf(s) # <<>> THEN <<StartTaskM(TasksOf(s)[1])>>
+     ELSE IF aft # {} THEN Map(StartStageM, InOrder(aft))
+     ELSE <<CompleteStageM(s)>>
+
+(* what a completing / skipped stage triggers: downstream, its parent (synthetic child), or the workflow *)
+Continuation(s) ==
+  IF Downstream(s) # {} THEN Map(StartStageM, InOrder(Downstream(s)))
+  ELSE IF P.parent[s] # "" THEN <<ContinueParentM(P.parent[s], P.owner[s])>>
+  ELSE <<CompleteWorkflowM>>
+HaltContinuation(s) == IF P.parent[s] # "" THEN <<CompleteStageM(P.parent[s])>> ELSE <<CompleteWorkflowM>>
+
 StartStagePlan ==   \* second commit: planned context + tasks + first continuation + mark
-  /\ wk.pc = "ss_claimed" /\ wk.sib = <<>>
+  /\ wk.pc = "ss_claimed" /\ wk.sib = <<>> /\ wk.kids = <<>>
   /\ LET s == Cur.s IN
      /\ st' = [Bump(st, s) EXCEPT ![s].fired = @ \/ P.join[s] \in {"DISCRIMINATOR", "N_OF_M"}]
      /\ tk' = Touch(tk, s)
-     /\ Commit(IF TasksOf(s) # <<>> THEN <<StartTaskM(TasksOf(s)[1])>> ELSE <<CompleteStageM(s)>>, TRUE)
+     /\ Commit(StartMsgs(s), TRUE)
      /\ SetWk("hdone") /\ Label("StartStagePlan")
      /\ UNCHANGED <<wf, dlq, claims, ledger, gh, cnt>>
 
@@ -534,18 +575,47 @@ ToTrack(s) == {d \in Downstream(s) : JoinTracked(d) /\ s \notin st[d].cb}
 
 CompleteStage ==
   /\ H("CompleteStage")
-  /\ LET s == Cur.s ds == DetermineStatus(s) IN
+  /\ wk.kids = <<>>
+  /\ LET s == Cur.s ds == DetermineStatus(s)
+         aft == Kids(s, "AFTER")
+         aftEx == aft \cap DOMAIN st
+         \* after-stage handling: status complete & not halting, or everything but the (untouched) after-stages done
+         handleAfter == \/ ds \in (Complete \ Halt)
+                        \/ (ds = "RUNNING" /\ aftEx # {} /\ {st[c].status : c \in aftEx} = {"NOT_STARTED"} /\ CoreDone(s))
+     IN
      IF st[s].status = "NOT_STARTED"
      THEN /\ Commit(<<>>, TRUE) /\ SetWk("hdone") /\ Label("CompleteStageNotStarted")
           /\ UNCHANGED <<wf, st, tk, dlq, claims, ledger, gh, cnt>>
      ELSE IF st[s].status # "RUNNING"
      THEN IF st[s].status \in Halt
-          THEN /\ Commit(<<CompleteWorkflowM>>, TRUE) /\ SetWk("hdone") /\ Label("CompleteStageAlreadyHalted")
+          THEN /\ Commit(HaltContinuation(s), TRUE) /\ SetWk("hdone") /\ Label("CompleteStageAlreadyHalted")
                /\ UNCHANGED <<wf, st, tk, dlq, claims, ledger, gh, cnt>>
           ELSE NoCommit("CompleteStageIgnored")
+     ELSE IF handleAfter /\ aftEx = {} /\ aft # {}
+     THEN \* _plan_after_stages: the builder's after-stages are inserted, one commit each (this is the first)
+          LET ks == InOrder(aft) IN
+          /\ st' = AddRows(st, Head(ks)) /\ tk' = AddTasks(tk, Head(ks))
+          /\ NoQueueChange
+          /\ wk' = [wk EXCEPT !.pc = IF Len(ks) = 1 THEN "handle" ELSE "cs_after", !.kids = Tail(ks)]
+          /\ Label("CompleteStagePlanAfter")
+          /\ UNCHANGED <<wf, dlq, claims, ledger, gh, cnt>>
+     ELSE IF handleAfter /\ \E c \in aftEx : st[c].status = "NOT_STARTED"
+     THEN /\ st' = Bump(st, s) /\ tk' = Touch(tk, s)
+          /\ Commit(Map(StartStageM, InOrder({c \in aftEx : st[c].status = "NOT_STARTED"})), TRUE)
+          /\ SetWk("hdone") /\ Label("CompleteStageStartAfter")
+          /\ UNCHANGED <<wf, dlq, claims, ledger, gh, cnt>>
+     ELSE IF ds \in Failure /\ ~handleAfter /\ \E c \in aftEx : st[c].status \notin Complete
+     THEN /\ Commit(<<>>, TRUE) /\ SetWk("hdone") /\ Label("CompleteStageChildrenInFlight")
+          /\ UNCHANGED <<wf, st, tk, dlq, claims, ledger, gh, cnt>>
      ELSE IF ds = "RUNNING"
      THEN /\ Commit(<<>>, TRUE) /\ SetWk("hdone") /\ Label("CompleteStageStillRunning")
           /\ UNCHANGED <<wf, st, tk, dlq, claims, ledger, gh, cnt>>
+     ELSE IF ds = "FAILED_CONTINUE" /\ P.parent[s] # ""
+     THEN \* synthetic child that failed-but-continues: its parent is completed directly; NO mark
+          /\ st' = [Bump(st, s) EXCEPT ![s].status = ds] /\ tk' = Touch(tk, s)
+          /\ Commit(<<CompleteStageM(P.parent[s])>>, FALSE)
+          /\ SetWk("hdone") /\ Label("CompleteStageChildFailedContinue")
+          /\ UNCHANGED <<wf, dlq, claims, ledger, gh, cnt>>
      ELSE IF ds \in {"SUCCEEDED", "FAILED_CONTINUE", "SKIPPED"} /\ ToTrack(s) # {}
      THEN \* join tracking: one own-commit store_stage per first-of / quorum downstream
           LET d == CHOOSE x \in ToTrack(s) : \A y \in ToTrack(s) : IdxStage(x) <= IdxStage(y) IN
@@ -557,16 +627,58 @@ CompleteStage ==
      ELSE IF ds \in {"SUCCEEDED", "FAILED_CONTINUE", "SKIPPED"}
      THEN /\ st' = [Bump(st, s) EXCEPT ![s].status = ds]
           /\ tk' = Touch(tk, s)
-          /\ Commit(IF Downstream(s) # {} THEN Map(StartStageM, InOrder(Downstream(s)))
-                    ELSE <<CompleteWorkflowM>>, TRUE)
+          /\ Commit(Continuation(s), TRUE)
           /\ SetWk("hdone") /\ Label("CompleteStage")
           /\ UNCHANGED <<wf, dlq, claims, ledger, gh, cnt>>
-     ELSE \* halting (or suspended / paused) status: cancel own remnants, finish the workflow; NO mark
+     ELSE \* halting (or suspended / paused) status: cancel own remnants, finish the workflow / parent; NO mark
           /\ st' = [Bump(st, s) EXCEPT ![s].status = ds]
           /\ tk' = Touch(tk, s)
-          /\ Commit(<<CancelStageM(s), CompleteWorkflowM>>, FALSE)
+          /\ Commit(<<CancelStageM(s)>> \o HaltContinuation(s), FALSE)
           /\ SetWk("hdone") /\ Label("CompleteStageHalt")
           /\ UNCHANGED <<wf, dlq, claims, ledger, gh, cnt>>
+
+CompleteStageAddAfter ==
+  /\ wk.pc = "cs_after" /\ wk.kids # <<>>
+  /\ LET c == Head(wk.kids) IN st' = AddRows(st, c) /\ tk' = AddTasks(tk, c)
+  /\ NoQueueChange
+  /\ wk' = [wk EXCEPT !.kids = Tail(@), !.pc = IF Len(wk.kids) = 1 THEN "handle" ELSE "cs_after"]
+  /\ Label("CompleteStageAddAfter")
+  /\ UNCHANGED <<wf, dlq, claims, ledger, gh, cnt>>
+
+(* handlers/continue_parent_stage.py *)
+ContinueParent ==
+  /\ H("ContinueParentStage")
+  /\ LET s == Cur.s ph == Cur.phase
+         K == Kids(s, ph) \cap DOMAIN st
+         anyHalt == \E c \in K : st[c].status \in Halt
+         allDone == \A c \in K : st[c].status \in Continuable
+         aftNS == {c \in Kids(s, "AFTER") \cap DOMAIN st : st[c].status = "NOT_STARTED"}
+     IN
+     IF anyHalt \/ (~allDone /\ Cur.rc >= MaxStageWait)
+     THEN IF CanTransition(st[s].status, "TERMINAL")
+          THEN /\ st' = [Bump(st, s) EXCEPT ![s].status = "TERMINAL"] /\ tk' = Touch(tk, s)
+               /\ Commit(<<CompleteStageM(s)>>, TRUE)
+               /\ SetWk("hdone") /\ Label("ContinueParentChildHalted")
+               /\ UNCHANGED <<wf, dlq, claims, ledger, gh, cnt>>
+          ELSE /\ SetWk("failed") /\ LabelN("ContinueParentIllegal")
+               /\ UNCHANGED <<durable, ledger, gh, cnt>>
+     ELSE IF ~allDone
+     THEN /\ Commit(<<[ContinueParentM(s, ph) EXCEPT !.rc = Cur.rc + 1, !.delayed = TRUE]>>, FALSE)
+          /\ SetWk("hdone") /\ Label("ContinueParentRequeue")
+          /\ UNCHANGED <<wf, st, tk, dlq, claims, ledger, gh, cnt>>
+     ELSE IF ph = "AFTER"
+     THEN /\ Commit(<<CompleteStageM(s)>>, TRUE) /\ SetWk("hdone") /\ Label("ContinueParentAfterDone")
+          /\ UNCHANGED <<wf, st, tk, dlq, claims, ledger, gh, cnt>>
+     ELSE IF TasksOf(s) # <<>>
+     THEN /\ Commit(<<StartTaskM(TasksOf(s)[1])>>, TRUE) /\ SetWk("hdone") /\ Label("ContinueParentStartTask")
+          /\ UNCHANGED <<wf, st, tk, dlq, claims, ledger, gh, cnt>>
+     ELSE IF Kids(s, "AFTER") \cap DOMAIN st # {}
+     THEN IF aftNS # {}
+          THEN /\ Commit(Map(StartStageM, InOrder(aftNS)), TRUE) /\ SetWk("hdone") /\ Label("ContinueParentStartAfter")
+               /\ UNCHANGED <<wf, st, tk, dlq, claims, ledger, gh, cnt>>
+          ELSE NoCommit("ContinueParentNothing")
+     ELSE /\ Commit(<<CompleteStageM(s)>>, TRUE) /\ SetWk("hdone") /\ Label("ContinueParentComplete")
+          /\ UNCHANGED <<wf, st, tk, dlq, claims, ledger, gh, cnt>>
 
 (* handlers/skip_stage.py *)
 SkipStage ==
@@ -576,8 +688,7 @@ SkipStage ==
      THEN NoCommit("SkipStageIgnored")
      ELSE /\ st' = [Bump(st, s) EXCEPT ![s].status = "SKIPPED"]
           /\ tk' = Touch(tk, s)
-          /\ Commit(IF Downstream(s) # {} THEN Map(StartStageM, InOrder(Downstream(s)))
-                    ELSE <<CompleteWorkflowM>>, TRUE)
+          /\ Commit(Continuation(s), TRUE)
           /\ SetWk("hdone") /\ Label("SkipStage")
           /\ UNCHANGED <<wf, dlq, claims, ledger, gh, cnt>>
 
@@ -671,14 +782,15 @@ JumpToStage ==
               R    == Resettable(tgt) \ {src, tgt}
               Sk   == IF back THEN {} ELSE {x \in SkippedBy(src, tgt) : st[x].status = "NOT_STARTED"}
               nj   == st[src].jumps + 1
-              Rearm == R \cup {tgt} \cup (IF back THEN {src} ELSE {})
+              Rearm0 == R \cup {tgt} \cup (IF back THEN {src} ELSE {})
+              Rearm == Rearm0 \cup (UNION {Children(x) : x \in Rearm0} \cap DOMAIN st)   \* + their synthetic children
           IN
           /\ st' = [s \in DOMAIN st |->
                       IF s = tgt THEN [ResetRow(st[s]) EXCEPT !.bypass = TRUE, !.jumps = nj]
                       ELSE IF s = src
                            THEN (IF back THEN [ResetRow(st[s]) EXCEPT !.jumps = nj]
                                  ELSE [st[s] EXCEPT !.status = "SUCCEEDED", !.jumps = nj, !.ver = @ + 1])
-                      ELSE IF s \in R THEN ResetRow(st[s])
+                      ELSE IF s \in R \/ s \in Rearm THEN ResetRow(st[s])
                       ELSE IF s \in Sk THEN [st[s] EXCEPT !.status = "SKIPPED", !.ver = @ + 1]
                       ELSE st[s]]
           /\ tk' = [t \in DOMAIN tk |->
@@ -724,7 +836,7 @@ Handlers ==
   \/ RunTaskGuard \/ RunTaskExec \/ RunTaskResult \/ CompleteTask
   \/ CompleteStage \/ SkipStage \/ CancelStage \/ CompleteWorkflow
   \/ CancelWorkflowFlag \/ CancelWorkflowTxn \/ JumpToStage \/ SignalStage
-  \/ StartStageCancelSibling
+  \/ StartStageCancelSibling \/ StartStageAddChild \/ CompleteStageAddAfter \/ ContinueParent
 
 -----------------------------------------------------------------------------
 (* Environment *)
@@ -750,7 +862,7 @@ TimePasses(m) ==
 
 CrashWhen(allowIdle) ==   \* process kill: volatile state is lost, locks stay; a fresh worker recovers first
   /\ cnt.crashes < MaxCrashes /\ (allowIdle \/ ~Idle)
-  /\ wk' = [pc |-> "idle", mid |-> NoMsg, out |-> "", sib |-> <<>>, seen |-> done, auth |-> TRUE]   \* fresh filter, hydrated at start
+  /\ wk' = [pc |-> "idle", mid |-> NoMsg, out |-> "", sib |-> <<>>, kids |-> <<>>, seen |-> done, auth |-> TRUE]   \* fresh filter, hydrated at start
   /\ cnt' = [cnt EXCEPT !.crashes = @ + 1, !.needSweep = TRUE]
   /\ lbl' = [name |-> "Crash", mid |-> wk.mid, c |-> FALSE]
   /\ UNCHANGED <<durable, ledger, gh>>
